@@ -32,6 +32,7 @@ func (nopWC) Close() error { return nil }
 type c11Env struct {
 	doc   *sbom.Document // single root, well-formed, fully populated
 	nl2   *sbom.NodeList // overlaps doc's ids
+	nl3   *sbom.NodeList // the same graph as nl2 in another presentation (same sizes, unsorted roots and targets)
 	probe *sbom.Node
 	n2    *sbom.Node
 	edge  *sbom.Edge
@@ -44,7 +45,7 @@ type c11Env struct {
 }
 
 func (e *c11Env) operands() []proto.Message {
-	return []proto.Message{e.doc, e.nl2, e.probe, e.n2, e.edge, e.edge2, e.pers, e.xref}
+	return []proto.Message{e.doc, e.nl2, e.probe, e.n2, e.edge, e.edge2, e.pers, e.xref, e.nl3}
 }
 
 func c11Build(r *rand.Rand, dir string) *c11Env {
@@ -102,7 +103,17 @@ func c11Build(r *rand.Rand, dir string) *c11Env {
 	nl2 := gen.RandomNodeList(r, gen.GraphOpts{Universe: append(append([]string{}, ids[:n/2]...), "x1", "x2"), EdgeTypes: []sbom.Edge_Type{sbom.Edge_contains}, PNode: 0.8, PEdge: 0.3, PRoot: 0.5, NodeMaker: mk})
 	// several roots in descending order
 	sort.Sort(sort.Reverse(sort.StringSlice(nl2.RootElements)))
-	env := &c11Env{doc: &sbom.Document{Metadata: md, NodeList: nl}, nl2: nl2, ids: ids, dir: dir, r: r}
+	// at least two roots, stored in descending order, so that in-place sorting is observable
+	if len(nl2.RootElements) < 2 {
+		for _, n := range nl2.Nodes {
+			nl2.RootElements = append(nl2.RootElements, n.Id)
+		}
+		nl2.RootElements = gen.Set.Keys(toSet(nl2.RootElements))
+		sort.Sort(sort.Reverse(sort.StringSlice(nl2.RootElements)))
+	}
+	nl3 := gen.ShuffledPresentation(r, nl2)
+	sort.Sort(sort.Reverse(sort.StringSlice(nl3.RootElements)))
+	env := &c11Env{doc: &sbom.Document{Metadata: md, NodeList: nl}, nl2: nl2, nl3: nl3, ids: ids, dir: dir, r: r}
 	env.probe = mk(r, "probe")
 	env.n2 = mk(r, ids[0])
 	env.edge = &sbom.Edge{From: "a", Type: sbom.Edge_contains, To: []string{"z", "y", "x", "b"}}
@@ -128,7 +139,13 @@ func c11Ops() []c11Op {
 	nl := func(e *c11Env) *sbom.NodeList { return e.doc.NodeList }
 	node := func(e *c11Env, r *rand.Rand) *sbom.Node { return nl(e).Nodes[r.Intn(len(nl(e).Nodes))] }
 	ops := []c11Op{
-		{"NodeList.Equal", func(e *c11Env, r *rand.Rand) { nl(e).Equal(e.nl2); e.nl2.Equal(nl(e)); nl(e).Equal(nl(e)) }},
+		{"NodeList.Equal", func(e *c11Env, r *rand.Rand) {
+			nl(e).Equal(e.nl2)
+			e.nl2.Equal(nl(e))
+			nl(e).Equal(nl(e))
+			e.nl2.Equal(e.nl3) // same sizes: the comparison goes all the way
+			e.nl3.Equal(e.nl2)
+		}},
 		{"NodeList.Copy", func(e *c11Env, r *rand.Rand) { nl(e).Copy() }},
 		{"NodeList.Union", func(e *c11Env, r *rand.Rand) { nl(e).Union(e.nl2); e.nl2.Union(nl(e)) }},
 		{"NodeList.Intersect", func(e *c11Env, r *rand.Rand) { nl(e).Intersect(e.nl2); e.nl2.Intersect(nl(e)) }},
@@ -295,7 +312,7 @@ func c11Case(c *core.C) {
 	for _, o := range env.operands() {
 		snaps = append(snaps, proto.Clone(o))
 	}
-	names := []string{"document", "second list", "probe node", "node n2", "edge", "edge2", "person", "external reference"}
+	names := []string{"document", "second list", "probe node", "node n2", "edge", "edge2", "person", "external reference", "third list"}
 	for _, op := range c11Ops() {
 		// a panic is not C11's subject (C04/C07/C15 decide totality); the snapshot comparison still runs
 		func() {
